@@ -23,7 +23,7 @@ def groups(sc, tier):
     common.prepare(sc)
     n = 4 if tier == "thorough" else 3
     kw = dict(sources=["src/crystal_diffraction.c", "src/xrayvars.c", "src/xraylib-aux.c"], extra=["harness/h_crystal.c", "harness/libm_uf.c"],
-              export_local=True, harness_defines=["-DNALLOC=%d" % n], backends=("sat", "cvc5"), timeout=1800, unwind=n + 12, leak_check=True,
+              export_local=True, harness_defines=["-DNALLOC=%d" % n], backends=("sat", "cvc5", "z3"), timeout=1800, unwind=n + 3, leak_check=True, object_bits=10,
               bounded="capacity <= %d, 1-character names, 1 / 2 atoms" % n)
     return [Group("C14.K5.AddCrystal", "K5", "lemma_AddCrystal", functions=["Crystal_AddCrystal", "Crystal_ExtendArray", "Crystal_MakeCopy", "Crystal_ArrayFree", "Crystal_UnitCellVolume"], **kw),
             Group("C14.K5.AddCrystal_builtin_full", "K5", "lemma_AddCrystal_builtin_full", functions=["Crystal_AddCrystal"], **kw),
